@@ -1405,8 +1405,9 @@ func (c *DefaultCtx) Render(name string, bind any, layouts ...string) error {
 	buf := bytebufferpool.Get()
 	defer bytebufferpool.Put(buf)
 
-	// Initialize empty bind map if bind is nil
-	if bind == nil {
+	// Initialize empty bind map if bind is nil (a nil Map inside the interface counts as nil:
+	// renderExtensions writes the view bindings into the map)
+	if m, ok := bind.(Map); bind == nil || (ok && m == nil) {
 		bind = make(Map)
 	}
 
